@@ -173,6 +173,15 @@ func equals(t types.Type, x, y value) bool {
 		return x == y.(*chanObj)
 	case *smap:
 		return x == y.(*smap)
+	case *boundIntrinsic:
+		yb, ok := y.(*boundIntrinsic)
+		if !ok {
+			return false
+		}
+		if x.kind == "rtype" && yb.kind == "rtype" {
+			return types.Identical(x.data.(types.Type), yb.data.(types.Type))
+		}
+		return x == yb
 	case structure:
 		return x.eq(t, y)
 	case array:
